@@ -15,14 +15,17 @@ P = Property('C04', 'other',
              'Contract on the real AST of Market._GenerateTermsLowLevel: the demand equation of a market is built from exactly those sectors of the '
              "market's currency zone (every one, in any position of the list, none else; CurrencyZone.GetSectors verified in C18) that declare the demand "
              'variable (DEM_<code> inside the country, DEM_<full code> from another country of the zone), each of them is booked the matching outflow, '
-             'and the joined terms are installed as the right-hand side. The clearing identities on solved models (demand = sum of demands, '
-             'supply = demand, allocations add up, asset demands add up to wealth) are bounded.',
+             'and the joined terms are installed as the right-hand side. Likewise MoneyMarket / DepositMarket._GenerateEquations (every asset-holding sector '
+             'of the zone but the issuer enters the total exactly once; every deposit holder in the total is booked its interest, the issuer the interest paid), '
+             'Sector.AddTermToEquation (adds exactly the term), Sector.GenerateAssetWeighting (residual weight = 1 minus every other weight, residual demand = '
+             'F * weight). The clearing identities on solved models (demand = sum of demands, supply = demand, allocations add up, asset demands add up to '
+             'wealth) and Market._GenerateMultiSupply are bounded.',
              'contract-based deductive verification: VCs generated from the real AST (pyvc), z3/cvc5; bounded model checks',
              design_ref='DESIGN.md section 6, C04')
 P.trust('assumed contract of Sector.AddCashFlow(term, eqn: str) (ledger clauses as verified for eqn=None in C06; the definition rule is bounded, dyn/C06.py)',
         'contracts of GetVariableName (C05), create_equation_from_terms (C12), CurrencyZone.GetSectors and SetEquationRightHandSide (C18), AddVariable (verified in C11 for identifier-shaped names)')
-P.not_decided.append('_GenerateMultiSupply (supply = demand, residual supplier, cross-currency suppliers), MoneyMarket / DepositMarket aggregation and '
-                     'GenerateAssetWeighting are not under contract: bounded on solved models (dyn/C04.py)')
+P.not_decided.append('_GenerateMultiSupply (supply = demand, residual supplier, cross-currency suppliers) is not under contract; the value-level identities '
+                     '(sums over the zone, weights adding up to 1 under T-STA) are bounded on solved models (dyn/C04.py)')
 P.replay_script = 'dyn/C04.py'
 
 cls('Market', fields=dict(ResidualSupply=Opt(Ref('Sector')), OtherSuppliers=List(Tup(Ref('Sector'), STR))))
